@@ -69,6 +69,11 @@ class CallMixin:
             return self.call_extern(f, args, kwargs, node, dstar)
         if isinstance(f, SBound):
             return self.call_bound(f, args, kwargs, node, dstar)
+        if isinstance(f, SNew) and isinstance(f.cls, ClassInfo):
+            # an instance of a package class used as a function: its __call__
+            m = self.prog.find_method(f.cls, "__call__")
+            if m is not None and m[0].module.name.startswith("htmltools"):
+                return self.call_function(SFunc(m[0].module, m[1], f, m[0], None, f"{m[0].name}.__call__"), args, kwargs, node=node, dstar=dstar)
         if isinstance(f, (SObj, SOpaque)):
             # calling a callable value (handler, hook)
             self.run.effect("call", f, None, list(args), node, extra=dict(kwargs))
@@ -413,7 +418,12 @@ class CallMixin:
             eo = _args_elem_origin(list(args))
             if eo != "new":
                 o.__dict__.setdefault("meta", {})["elem_origin"] = eo
-        if ci.name in self.run.cfg.interpret_ctor:
+        from .inventory import KNOWN_FUNCTIONS
+        m0 = self.prog.find_method(ci, "__init__") if ci.module.name.startswith("htmltools") else None
+        new_class = m0 is not None and m0[0].module.name.startswith("htmltools") and f"{m0[0].name}.__init__" not in KNOWN_FUNCTIONS \
+            and not any(k.startswith(ci.name + ".") for k in KNOWN_FUNCTIONS)
+        if ci.name in self.run.cfg.interpret_ctor or new_class:
+            # (a class that a refactoring introduced is part of the code under analysis, like a new helper function)
             m = self.prog.find_method(ci, "__init__")
             if m is not None:
                 self.call_function(SFunc(m[0].module, m[1], o, m[0], None, f"{m[0].name}.__init__"), args, kwargs,
@@ -459,6 +469,12 @@ class CallMixin:
                     if ek is not None:
                         o2.meta["elem_kinds"] = ek
                 return o2
+            dv = getattr(v, "iter_descr", None)
+            if py in (list, tuple) and dv is not None and dv[0] in ("enumerate", "reversed"):
+                # list(enumerate(x)) / tuple(d.items()): the same elements in the same order, taken up front
+                o0 = _iter(dv)
+                o0.__dict__["snapshot"] = py.__name__
+                return o0
             o = SOpaque((py.__name__, short(v)))
             o.__dict__["of"] = v
             o.__dict__["pytype"] = py.__name__
@@ -966,6 +982,7 @@ class CallMixin:
         # ---- super() of a builtin base ---------------------------------------------------
         if isinstance(recv, _Base):
             run.effect("basecall", recv.obj, f"{recv.base}.{name}", list(args), node, extra=dict(kwargs))
+            run.effects[-1].__dict__["dstar"] = list(dstar or [])
             if name == "__init__":
                 if recv.base in ("UserList",):
                     pass
@@ -1028,6 +1045,11 @@ class CallMixin:
                     return recv.items[key]
                 if recv.concrete and not recv.dstar:
                     return args[1] if len(args) > 1 else None
+                if len(args) > 1 and isinstance(args[1], Sym):
+                    # d.get(k, <some object>): the same decision as `k in d`, then the item or that object
+                    if not run.truth(self.contains(recv, args[0], node), node):
+                        return args[1]
+                    return self.get_item(recv, args[0], node)  # type: ignore[arg-type]
                 v = self.get_item(recv, args[0], node)  # type: ignore[arg-type]
                 if isinstance(v, SObj) and (len(args) < 2 or not isinstance(args[1], Sym)):
                     v.kinds = v.kinds | {kinds_of_pyvalue(args[1]) if len(args) > 1 else "NONE"}
@@ -1131,7 +1153,7 @@ class CallMixin:
                 return SStr(pre + [Frag("LOOP", seq.__dict__["loop"], seq.name)])
         if isinstance(seq, SList) and seq.mode == "map":
             item = self.as_sstr(seq.elt)
-            payload = {"sep": sep, "item": item if item is not None else seq.elt, "over": seq.base, "var": seq.var, "cond": seq.cond}
+            payload = {"sep": sep, "item": item if item is not None else seq.elt, "over": seq.base, "var": seq.var, "cond": seq.cond, "map": seq}
             return SStr([Frag("OP", ("join", sep.const() if sep.is_const() else repr(sep)), payload, ())])
         return SStr([Frag("OP", ("join", sep.const() if sep.is_const() else repr(sep)), {"sep": sep, "seq": seq}, ())])
 
@@ -1156,6 +1178,10 @@ class CallMixin:
             if name in ("items", "keys", "values"):
                 return _iter((name, recv))
             if name == "get":
+                if len(args) > 1 and isinstance(args[1], Sym):
+                    if not run.truth(self.contains(recv, args[0], node), node):
+                        return args[1]
+                    return self.get_item(recv, args[0], node)  # type: ignore[arg-type]
                 v = self.get_item(recv, args[0], node)  # type: ignore[arg-type]
                 if isinstance(v, SObj):
                     # missing key -> default
